@@ -737,6 +737,10 @@ def typed_number_cases(ctx):
 
 
 def run(ctx):
+    # action arguments are resolved once per event — also when one template dict is yielded again and again by a pattern,
+    # and a written phrase of dicts is the caller's (shared with C07, which asks the same of several tracks)
+    from . import c07 as _c07
+    _c07.shared_event_dict_cases(ctx, prop="C03", kinds=("template-args", "template-args", "canon"))
     check_table(ctx)
     typed_number_cases(ctx)
     dict_reuse_cases(ctx)
